@@ -285,6 +285,100 @@ def translate_op_count(repo):
     return count, (lambda c, base, full: base if c <= base else full)
 
 
+def translate_dispatch(repo):
+    """Source-level translator of BaseBuilder::serialize_to (core/builder.cpp): the if / else-if chain over node predicates and the emitter
+    call of each branch (the label branch with its nested const-pool test).  Returns (calls_before_chain, [(predicate, [(nested predicate or None, call)])])
+    or None when the function does not have that shape."""
+    import re
+    try:
+        src = open(os.path.join(repo, "asmjit", "core", "builder.cpp")).read()
+    except OSError:
+        return None
+    m = re.search(r"Error BaseBuilder::serialize_to\(BaseEmitter\* dst\) \{(.*?)\n\}\n", src, re.S)
+    if not m:
+        return None
+    body = m.group(1)
+    loop = body.find("do {")
+    if loop < 0 or "} while (node_);" not in body or "node_ = node_->next();" not in body:
+        return None
+    body = body[loop:]
+    first = re.search(r"if \(node_->is_(\w+)\(\)\) \{", body)
+    if not first:
+        return None
+    pre = re.findall(r"dst->(\w+)\(", body[:first.start()])
+    chain = []
+    parts = re.split(r"\n    (?:else )?if \(node_->is_(\w+)\(\)\) \{", body[first.start() - 5:])
+    # parts = [junk, pred1, block1, pred2, block2, ...]
+    if len(parts) < 3 or len(parts) % 2 == 0:
+        return None
+    for i in range(1, len(parts), 2):
+        pred, block = parts[i], parts[i + 1]
+        end = block.find("\n    if (err != Error::kOk)")
+        if end >= 0:
+            block = block[:end]
+        nested = re.split(r"\n      (?:else )?if \(node_->is_(\w+)\(\)\) \{", block)
+        if len(nested) >= 3:
+            alts = []
+            for j in range(1, len(nested), 2):
+                blk = nested[j + 1]
+                k = blk.find("\n      else {")
+                calls = re.findall(r"err = dst->(\w+)\(", blk[:k] if k >= 0 else blk)
+                alts.append((nested[j], calls))
+                if k >= 0:
+                    alts.append((None, re.findall(r"err = dst->(\w+)\(", blk[k:])))
+            chain.append((pred, alts))
+        else:
+            chain.append((pred, [(None, re.findall(r"err = dst->(\w+)\(", block))]))
+    return pre, chain
+
+
+def dispatch_tie(ck, cat_text, model):
+    """serialize_to's dispatch as read from the source, evaluated on the predicates REAL nodes of every type answer (harness NODEPRED), against
+    the calls the model's replay_node performs for the node kind that stands for that type"""
+    tr = translate_dispatch(vlib.REPO)
+    preds, types = {}, {}
+    names = ["inst", "label", "const_pool", "align", "embed_data", "embed_label", "embed_label_delta", "section", "comment"]
+    for l in cat_text.split("\n"):
+        t = l.split()
+        if t and t[0] == "NODEPRED":
+            preds[int(t[1])] = {n for n, v in zip(names, t[2:]) if v == "1"}
+        elif t and t[0] == "NODETYPES":
+            types = {t[i]: int(t[i + 1]) for i in range(1, len(t), 2)}
+    rc, mo, _e = vlib.sh([model, "-dispatch"], timeout=60)
+    mrows = {t[1]: (t[2], t[3].split(",") if len(t) > 3 and t[3] else []) for t in (l.split() for l in mo.split("\n")) if len(t) >= 3 and t[0] == "DISPATCH"}
+    if tr is None or not preds or not types or len(mrows) != 15:
+        ck.violation("C08/translator/dispatch-shape", "BaseBuilder::serialize_to in the tree does not have the if / else-if shape the translator knows (or the harness / model "
+                     "tables are incomplete: %d node types, %d model kinds): the dispatch of the model's serialization is no longer tied to the source" % (len(preds), len(mrows)),
+                     {"broken": "source translator of serialize_to (tools/checks/c08.py translate_dispatch)"}, no_input=True)
+        return 0
+    pre, chain = tr
+    call_of = {"_emit": "Emit", "bind": "Bind", "embed_const_pool": "ConstPool", "align": "Align", "embed_data_array": "EmbedArray", "embed_label": "EmbedLabel",
+               "embed_label_delta": "EmbedDelta", "section": "Section", "comment": "Comment"}
+    kind_type = {"inst": "inst", "section": "section", "label": "label", "align": "align", "data": "data", "embedlabel": "embedlabel", "embeddelta": "embeddelta",
+                 "comment": "comment", "constpool": "constpool", "sentinel": "sentinel", "func": "func", "funcend": "sentinel", "funcret": "funcret", "jump": "jump", "invoke": "invoke"}
+    n = 0
+    for kind, (setter, mcalls) in sorted(mrows.items()):
+        p = preds.get(types.get(kind_type[kind], -1))
+        if p is None:
+            continue
+        src_calls = []
+        for pred, alts in chain:
+            if pred in p:
+                for npred, calls in alts:
+                    if npred is None or npred in p:
+                        src_calls = calls
+                        break
+                break
+        want = [call_of.get(c, c) for c in src_calls]
+        n += 1
+        if want != mcalls or (setter == "1") != ("set_inline_comment" in pre):
+            ck.violation("C08/translator/dispatch", "node kind %s (real node type %d, predicates %s): serialize_to's source dispatches to %s (before the chain: %s), "
+                         "the model's replay_node to %s (inline comment first: %s)" % (kind, types[kind_type[kind]], sorted(p), src_calls or "nothing", pre, mcalls or "nothing", setter),
+                         {"node_kind": kind, "source": src_calls, "model": mcalls, "predicates": sorted(p)})
+            break
+    return n
+
+
 def decoder_tie(ck, impl, model, progs):
     """X86Dec.dec_x86 (extracted) against the real accessors (Operand_::op_type, Reg::reg_type/id, x86::Mem::size/base_type/base_id/index_type/
     index_id/offset/segment_id/get_broadcast/is_reg_home, Imm::value) on every operand of the x86 programs of this run and on systematic
@@ -359,7 +453,7 @@ def strip_bytes(img):
     return re.sub(r"(\[\d+ off=\d+ vs=\d+ )[0-9a-f=]+\]", lambda m: m.group(1) + "*]", img)
 
 
-def shrink(impl, cat, meta, key, allow_xsec, budget=400):
+def shrink(impl, cat, meta, key, allow_xsec, budget=400, pred=None):
     """Delta-debugging over the builder command lines: delete chunks while the SAME violation key is still reported for the smaller
     program (its reference sequence is recomputed by the list oracle, so every candidate is a well-formed question).  Returns
     (program text, number of commands) of the smallest failing program found."""
@@ -389,6 +483,8 @@ def shrink(impl, cat, meta, key, allow_xsec, budget=400):
             return False
         text = c08_gen.program_text(meta["pidx"], meta["arch"], meta["base"][0], meta["base"][1], meta["flags"], ls, ref)
         runs[0] += 1
+        if pred is not None:
+            return pred(text, ls)
         rc, out, err = vlib.sh([impl, "run"], inp=text, timeout=20)
         if rc != 0:
             return key == "C08/harness-crash"
@@ -554,8 +650,10 @@ def run(ck):
     ref_checked = 0
     n_shrunk = 0
     n_hole_steps = 0
+    n_corr_shrunk = 0
     n_verdicts = 0
     n_decoded = 0
+    n_dispatch = 0
     n_refused = 0
     verdict_codes = set()
     opcount_rows = 0
@@ -651,10 +749,28 @@ def run(ck):
                     dm = vmm[first] if first < len(vmm) else "?"
                     cmd = meta["lines"][first] if first < len(meta["lines"]) else "?"
                     if not [k for k, _w in js if ck.match_finding(k) is None]:     # the oracle already exhibits a failing input otherwise
+                        # a concrete failing input for the TIE: the program is shrunk (delta debugging) while model and implementation still
+                        # disagree about the node list after some command; not for AArch64 strict-validation programs (their verdicts are inputs)
+                        small = None
+                        if not (meta.get("validate") and meta["arch"] == 2) and n_corr_shrunk < 3:
+                            n_corr_shrunk += 1
+
+                            def still_differs(t2, ls2, _tag=tag, _pidx=meta["pidx"]):
+                                r1, o1, _ = vlib.sh([impl, "run"], inp=t2, timeout=20)
+                                r2, o2, _ = vlib.sh([model], inp=t2, timeout=20)
+                                if r1 != 0 or r2 != 0:
+                                    return False
+                                a2, m2 = parse_answers(o1).get(_pidx), parse_answers(o2).get(_pidx)
+                                if not a2 or not m2 or a2.get("CORRUPT"):
+                                    return False
+                                return first_difference(m2["STEP"], list(a2[_tag]), a2)[0] is not None
+                            small, ncmd = shrink(impl, cat, meta, None, allow_xsec, budget=250, pred=still_differs)
                         ck.violation("C08/correspondence/%s/%s" % ("builder" if tag == "STEP" else "compiler", cmd.split()[0] if cmd.split() else "?"),
                                      "program %d: node list of the %s and of the proven model differ after command %d `%s`\n impl : %s\n model: %s\n(the implementation-vs-implementation "
-                                     "oracle found no wrong image for this program)" % (meta["pidx"], "Builder" if tag == "STEP" else "Compiler", first, cmd, di[:700], dm[:700]),
-                                     {"program": text, "step": first, "impl": di, "model": dm, "broken": "node-list correspondence of BuilderModel.v with /repo"}, no_input=True)
+                                     "oracle found no wrong image for this program)%s" % (meta["pidx"], "Builder" if tag == "STEP" else "Compiler", first, cmd, di[:700], dm[:700],
+                                                                                            ("  [shrunk from %d to %d commands: %s]" % (len(meta["lines"]), ncmd, " ; ".join(small.split("\n")[1:1 + min(ncmd, 12)]))) if small else ""),
+                                     dict({"program": text, "step": first, "impl": di, "model": dm, "broken": "node-list correspondence of BuilderModel.v with /repo"},
+                                          **({"shrunk_program": small, "commands_after_shrinking": ncmd} if small else {})), no_input=(small is None))
                     break
         if len(samples) < 4 and a:
             samples.append({"program_head": meta["lines"][:12], "kind": meta["kind"], "arch": meta["arch"], "image_base0": a["IMG"].get((0, "B"), "")[:200]})
@@ -675,6 +791,7 @@ def run(ck):
             bad = [(g, w) for g, w in zip(got, want) if g != w][:2]
             ck.violation("C08/constants", "constants of the model differ from the code's: %s" % (bad or (len(got), len(want)),), {"broken": "constants tie (model -consts vs harness catalog)"}, no_input=True)
         n_decoded = decoder_tie(ck, impl, model, progs)
+        n_dispatch = dispatch_tie(ck, cat_text, model)
         # translator tie of the operand-count rule: the C++ source of op_count_from_emit_args / capacity_of_op_count, read from the tree,
         # against the model's op_count / capacity_of on all 64 patterns
         tr = translate_op_count(vlib.REPO)
@@ -703,7 +820,7 @@ def run(ck):
                  "section switches; 40% with node-list edits, 20% malformed) generated from VERIF_SEED for x86-64/x86-32/AArch64; a program is non-trivial when it "
                  "has more than 4 commands; distinct = distinct final node-list dumps",
          "samples": samples, "programs_by_kind": kinds, "input_distribution": stats, "programs_without_any_error": n_err_free, "cross_section_label_references_generated": allow_xsec,
-         "node_list_steps_compared_with_model": steps_compared, "reference_sequences_equal_to_model_serialization": ref_checked, "programs_under_strict_validation": len([1 for _t, m in progs if m.get("validate")]), "commands_with_operand_after_hole_compared_as_recorded": n_hole_steps, "function_programs_by_arch": func_by_arch, "op_count_patterns_equal_to_translated_source": opcount_rows, "validation_verdicts_computed_by_model_and_compared": n_verdicts, "x86_operands_decoded_by_model_equal_to_real_accessors": n_decoded, "of_which_refusals": n_refused, "distinct_verdict_codes": sorted(verdict_codes), "unsupported": {"programs_judged_by_oracle_only": oracle_only}, "model_vs_impl_disagreements": disagreements,
+         "node_list_steps_compared_with_model": steps_compared, "reference_sequences_equal_to_model_serialization": ref_checked, "programs_under_strict_validation": len([1 for _t, m in progs if m.get("validate")]), "commands_with_operand_after_hole_compared_as_recorded": n_hole_steps, "function_programs_by_arch": func_by_arch, "op_count_patterns_equal_to_translated_source": opcount_rows, "validation_verdicts_computed_by_model_and_compared": n_verdicts, "x86_operands_decoded_by_model_equal_to_real_accessors": n_decoded, "serialize_dispatch_node_kinds_equal_to_translated_source": n_dispatch, "of_which_refusals": n_refused, "distinct_verdict_codes": sorted(verdict_codes), "unsupported": {"programs_judged_by_oracle_only": oracle_only}, "model_vs_impl_disagreements": disagreements,
          "traces_validated_against_impl": n_judged if model else 0,
          "proved_vs_compared": {
              "proved_for_all_inputs_in_coq": "the theorems of Properties_C08.v (obligations below) - statements about BuilderModel.v, C03's label machine, C04's relocate_entry and C13's validate; "
@@ -712,7 +829,7 @@ def run(ck):
                                       "operand_slot_patterns_swept_exhaustively": stats.get("operand_pattern_sweep", 0), "validation_verdicts_equal_to_model": n_verdicts,
                                       "op_count_rule_source_vs_model_patterns": opcount_rows, "reference_sequences_equal_to_model_serialization": ref_checked},
              "not_proved_only_compared": "byte equality of images (the instruction encoders are opaque to the model); AArch64 validation verdicts (input of the model); "
-                                         "label deltas whose two labels live in one section other than the delta's (per-entry effect proved, image equality compared)"}},
+                                         "the C++ byte buffers themselves (the relocated-bytes equation for arbitrary label deltas is proved on C03's machine state: C08_same_relocated_bytes_machine)"}},
         assumptions=["theorems are about the Gallina model BuilderModel.v; the model is tied to builder.cpp by the per-command node-list differential of this check",
                      "the instruction encoder is opaque to the model (C01/C02 speak about it); equality of images is established per run by the implementation-vs-implementation oracle",
                      "relocations are compared by effect (images relocated at two bases, label offsets, unresolved count), not entry by entry"],
